@@ -55,7 +55,7 @@ def run(ctx):
     ctx.replay(scen, _replayer, nontrivial=lambda e, p: True)
     ctx._phase("replay", t0)
     ctx.cov["exhaustive"] = True
-    n = ctx.pick(1500, 30000)
+    n = ctx.pick(1500, 10000)
     t0 = time.time()
     traces = framework.pool_map(F.random_form, [(i + 1, ctx.seed * 1000003 + i) for i in range(n)])
     for t in traces:
